@@ -142,6 +142,12 @@ def histories(draw):
     seeds = draw(G.memory_seeds(pd))
     cfg = draw(G.target_cfgs(allow_micro800=False))
     cfg["page_size"] = draw(st.sampled_from([30, 100, 480]))
+    if draw(st.integers(0, 3)) == 0:
+        # the target refuses a kind of request outright (whole Multiple Service Packets, e.g. 0x11 "reply data too large"), once or every time:
+        # whatever the driver does to recover, the next message needs a fresh count
+        cfg["forced"] = [{"when": {"service": draw(st.sampled_from([0x0A, 0x0A, 0x0A, 0x4C, 0x52, 0x4D, 0x53, 0x4E, 0x55, 0x03])), "transport": "connected"},
+                          "status": draw(st.one_of(st.sampled_from([0x11, 0x11, 0x1E, 0x13, 0x15, 0x08, 0x02]), st.integers(1, 0x2C).filter(lambda x: x != 6))), "ext": [],
+                          "once": draw(st.booleans())}]
     ops = []
     for _ in range(draw(st.integers(3, 14))):
         k = draw(st.sampled_from(["generic", "read", "read", "write", "write", "upload"]))
